@@ -32,6 +32,9 @@ pub fn settle(w: &mut World, plan: &WritePlan, streams: bool) {
     let mut guard = 0usize;
     loop {
         w.quiesce(streams);
+        if w.budget_exhausted {
+            return; // a self-waking or never-finishing loop: reported as LIVELOCK by the caller
+        }
         if w.writer.blocked() {
             if let Some(g) = plan.stall {
                 w.writer.grant(g.max(1) as usize);
